@@ -56,6 +56,11 @@ def resolve_yearday(f):
     if yd:
         if yd > 366:
             return None
+        if yd == 366:
+            # day 366 exists only in leap years, where it is 31 December; in other years the request is clipped to
+            # the last day.  (Not derived from the implementation's table, whose entry for 366 is "December 32nd".)
+            f['month'], f['day'] = 12, 31
+            return f
         prev = 0
         for i, t in enumerate(YDAY_TABLE):
             if yd <= t:
@@ -174,6 +179,9 @@ def selftest():
     assert add(D.date(2003, 9, 17), {'yearday': 260}) == D.date(2003, 9, 17)
     assert add(D.date(2000, 9, 17), {'yearday': 261}) == D.date(2000, 9, 17)
     assert add(D.date(2000, 9, 17), {'nlyearday': 260}) == D.date(2000, 9, 17)
+    assert add(D.date(2000, 1, 1), {'yearday': 366}) == D.date(2000, 12, 31) and add(D.date(2001, 1, 1), {'yearday': 366}) == D.date(2001, 12, 31)
+    for n in range(1, 366):
+        assert add(D.date(2001, 6, 6), {'yearday': n}).timetuple().tm_yday == n and add(D.date(2004, 6, 6), {'yearday': n}).timetuple().tm_yday == n
     assert normalise({'hours': 1, 'seconds': -3600})['hours'] == 0
     assert max_month_shift(D.date(2000, 3, 30), D.date(2000, 1, 31)) == 1
     return True
